@@ -48,7 +48,7 @@ ZERO_LEN = ['.fill 0, 7', '.zero 0', '.zerountil 0', '.fill 0, 0']
 
 @st.composite
 def _valid(draw):
-    cfg = draw(G.layout_isa(zones=True, blocks=True, address_sizes=(8, 12, 16, 16)))
+    cfg = draw(G.layout_isa(zones=True, blocks=True, address_sizes=(8, 12, 16, 16, 16, 40, 48)))
     b, feats = G.general_program(draw, cfg, max_steps=14, extra=['include'])
     return cfg, b
 
@@ -210,6 +210,9 @@ def execute(case, ctx):
     if case['pre']:
         files['out.bin'] = SENTINEL
     argv = ['compile', '-c', fname, '-o', 'out.bin']
+    if cfg['general']['address_size'] > 16:
+        # keep the image small: start the window where the generators place the code
+        argv += ['-s', str(G.window_of(R.Isa(cfg))[0])]
     if case['pp']:
         argv += ['--pretty-print', '-t', case['pp'], '--pretty-print-output', 'pp.txt']
     argv.append('main.asm')
